@@ -12,6 +12,13 @@ Tie (every goal is closed inside Coq by Coq-Interval on exact dyadic inputs/outp
     matrices; cal_fitfractions (method old and new) errors vs sqrt(g^T V g) with g from central
     differences of the FRACTION ITSELF (computed here from amp.partial_weight, not from the library's
     gradient); ConfigLoader.params_trans / ParamsTrans.get_error on differentiable expressions.
+  * cal_err on numpy-ARRAY operands (element-wise tie, called twice, operands must be left untouched);
+  * applications.cal_hesse_correct on cubic toy likelihoods at non-stationary points: every corrected entry against the
+    finite-difference stencils hc_diag / hc_off of the model (exact on cubics, theorems), the VarsManager back at the fit point;
+  * VarsManager.minimize / minimize_error on bounded toy problems: hess_inv = y'(x_fit) V_x y'(x_fit) with V_x the matrix the
+    optimiser returned (captured through the documented callable-method hook), H V = I for the Hessian path;
+  * on one FitFractions object three successive queries with two error matrices; ParamsTrans.get_error_matrix (tensor and
+    list input) entry by entry against J V J^T; params_trans under mask_params; pre_trans constraints.
 On break: operator / operand-sign grid against finite-difference first-order propagation in plain Python."""
 import contextlib
 import io
@@ -34,7 +41,7 @@ HEADER = ("From Coq Require Import Reals List ZArith.\nFrom Interval Require Imp
 UNF = ("NE nval nerr rpw ne_add ne_sub ne_mul ne_div ne_pow ne_add_c ne_sub_c ne_mul_c ne_div_c ne_pow_c ne_pow_z ne_neg ne_rpow "
        "ne_log ne_exp ne_apply ne_apply_num quad_sum cal_err_grad upd cdiff cal_err_num dot mat_vec quad_form err_prop mget mcol "
        "mmul_ij delta inv_residual_row hesse_error err_prop_vec ff ff_grad ff_int ff_int_grad ff_grad_vec bt_two bt_lower bt_upper "
-       "bt_two_d bt_lower_d bt_upper_d scale_row trans_error_matrix fst snd map seq length nth fold_right combine Nat.eqb")
+       "bt_two_d bt_lower_d bt_upper_d scale_row trans_error_matrix hc1 hc2 hc_diag hc_off jvjt_kl fst snd map seq length nth fold_right combine Nat.eqb")
 PRELUDE = ("Ltac zfix := repeat match goal with |- context [(?a - ?b)%Z] => let z := eval vm_compute in (a - b)%Z in change (a - b)%Z with z end.\n"
            "Ltac c09 := cbv [" + UNF + "]; zfix; rclose.\n")
 TAC = "c09"
@@ -247,6 +254,204 @@ def calerr_cases(ctx, rnd, n):
         cases.append(("calerr_n_%d_v" % k, close("fst (%s)" % m, float(r.value)), TAC, dict(meta, grad="numeric", impl=[float(r.value), float(r.error)])))
         cases.append(("calerr_n_%d_e" % k, close("snd (%s)" % m, float(r.error), rtol=1e-9), TAC, dict(meta, grad="numeric", impl=[float(r.value), float(r.error)])))
         ctx.count("cal_err:%s:plain_arg=%s" % (name, plain if plain < 3 else "none"))
+        # numpy-array operands (element-wise propagation): two successive calls on the SAME operands; every element of both results is
+        # tied to the scalar model at the ORIGINAL operand values, and the operands must come back bit-identical
+        if k < len(CALERR_FUNS) or k % 3 == 0:
+            m = 2
+            xa = [np.array([sgn(rnd, 0.3, 3.0) for _ in range(m)]) for _ in range(3)]
+            ea = [np.array([rnd.uniform(0.01, 0.3) for _ in range(m)]) for _ in range(3)]
+            x0 = [a.copy() for a in xa]
+            ea_eff = [np.zeros(m) if i == plain else e for i, e in enumerate(ea)]
+            args = [x if i == plain else NumberError(x, e) for i, (x, e) in enumerate(zip(xa, ea))]
+            for call in range(2):
+                r = cal_err(f, *args, dx=1e-3)
+                rv = np.array(r.value, dtype=float); re_ = np.array(r.error, dtype=float)
+                for j in range(m):
+                    xs_j = [float(a[j]) for a in x0]; es_j = [float(e[j]) for e in ea_eff]
+                    meta = {"kind": "cal_err", "fun": name, "operands": "numpy arrays", "call": call, "element": j, "values": xs_j, "errors": es_j,
+                            "grad": "numeric", "impl": [float(rv[j]), float(re_[j])]}
+                    mdl = "cal_err_num %s %s %s %s" % (coqf, rlist(xs_j), rlist(es_j), Rq(1e-3))
+                    cases.append(("calerr_a_%d_%d_%d_v" % (k, call, j), close("fst (%s)" % mdl, float(rv[j]), rtol=1e-9), TAC, meta))
+                    cases.append(("calerr_a_%d_%d_%d_e" % (k, call, j), close("snd (%s)" % mdl, float(re_[j]), rtol=1e-9), TAC, meta))
+            ctx.count("cal_err:%s:array_operands" % name)
+            after = [np.array(a._value if isinstance(a, NumberError) else a, dtype=float) for a in args]
+            if not all(np.array_equal(a, b) for a, b in zip(after, x0)):
+                ctx.fail("cal_err", "calerr_a_%d_state" % k, "cal_err changed its numpy-array operands in place", inp=None, site=SITES["cal_err"],
+                         fingerprint="cal_err:operand_mutated",
+                         failing_input={"fun": name, "dx": 1e-3, "operands_before": [a.tolist() for a in x0], "operands_after_two_calls": [a.tolist() for a in after]})
+    return cases
+
+
+# --------------------------------------------------------------------------- cal_hesse_correct on cubic toy likelihoods
+
+class CubicFCN:
+    """NLL(v) = sum b_i v_i + sum A_ij v_i v_j + sum c_i v_i^3 + d v_0 v_1 v_2 + q v_0^2 v_1 with the interface cal_hesse_correct uses
+    (vm, get_params, __call__, nll_grad_hessian)"""
+
+    def __init__(self, b, A, c, d, q, point):
+        import tensorflow as tf
+        from tf_pwa.variable import VarsManager
+        self.b, self.A, self.c, self.d, self.q = b, A, c, d, q
+        self.names = ["v%d" % i for i in range(len(b))]
+        self.vm = VarsManager(dtype=tf.float64)
+        for nm, x in zip(self.names, point):
+            self.vm.add_real_var(nm, x)
+
+    def get_params(self, trainable_only=False):
+        return self.vm.get_all_dic(trainable_only)
+
+    def _set(self, x):
+        self.vm.set_all(x if isinstance(x, dict) else list(x))
+
+    def _f(self):
+        v = [self.vm.variables[nm] for nm in self.names]
+        n = len(v)
+        y = sum(self.b[i] * v[i] for i in range(n)) + sum(self.A[i][j] * v[i] * v[j] for i in range(n) for j in range(n))
+        y = y + sum(self.c[i] * v[i] * v[i] * v[i] for i in range(n)) + self.d * v[0] * v[1] * v[2] + self.q * v[0] * v[0] * v[1]
+        return y
+
+    def __call__(self, x={}):
+        self._set(x)
+        return float(self._f())
+
+    def nll_grad_hessian(self, x={}):
+        import tensorflow as tf
+        self._set(x)
+        var = self.vm.trainable_variables
+        with tf.GradientTape(persistent=True) as t0:
+            with tf.GradientTape() as t1:
+                y = self._f()
+            g = t1.gradient(y, var)
+        h = tf.stack([tf.stack(t0.gradient(gi, var, unconnected_gradients="zero")) for gi in g])
+        return y, tf.stack(g), h
+
+    def coq(self):
+        n = len(self.b)
+        v = ["nth %d l 0" % i for i in range(n)]
+        t = ["%s * %s" % (Rq(self.b[i]), v[i]) for i in range(n)]
+        t += ["%s * %s * %s" % (Rq(self.A[i][j]), v[i], v[j]) for i in range(n) for j in range(n)]
+        t += ["%s * %s * %s * %s" % (Rq(self.c[i]), v[i], v[i], v[i]) for i in range(n)]
+        t += ["%s * %s * %s * %s" % (Rq(self.d), v[0], v[1], v[2]), "%s * %s * %s * %s" % (Rq(self.q), v[0], v[0], v[1])]
+        return "(fun l => " + " + ".join(t) + ")"
+
+
+def hesse_correct_cases(ctx, rnd, n):
+    """get_params_error(method="correct", correct_params=[...]) replaces rows of the Hessian by finite differences (step 1e-3): on a
+    cubic NLL both stencils are exact (C09_hesse_correct_*_exact_on_cubics), so every corrected entry must be the model's stencil value -
+    also at points whose gradient is far from zero - and the parameters must be back at the fit point afterwards"""
+    from tf_pwa.applications import cal_hesse_correct
+    cases = []
+    for k in range(n):
+        nv = 3
+        M = [[rnd.uniform(-1, 1) for _ in range(nv)] for _ in range(nv)]
+        A = (np.array(M) @ np.array(M).T + np.eye(nv)).tolist()
+        b = [rnd.uniform(-2, 2) for _ in range(nv)]
+        c = [rnd.uniform(-0.3, 0.3) for _ in range(nv)]
+        d, q = rnd.uniform(-0.5, 0.5), rnd.uniform(-0.5, 0.5)
+        point = [rnd.uniform(-0.3, 0.3) for _ in range(nv)]
+        fcn = CubicFCN(b, A, c, d, q, point)
+        corr = rnd.sample(fcn.names, rnd.choice([1, 2, 3]))
+        with quiet():
+            _, g, h0 = fcn.nll_grad_hessian(dict(zip(fcn.names, point)))
+            h = np.array(cal_hesse_correct(fcn, dict(zip(fcn.names, point)), corr), dtype=float)
+        after = fcn.get_params()
+        eig = np.linalg.eigvalsh(np.array(h0))
+        if eig.min() <= 0:
+            ctx.count("hesse_correct:hessian_not_positive_definite(skipped)")
+            continue
+        ctx.count("hesse_correct:n_corrected=%d" % len(corr))
+        base = {"kind": "cal_hesse_correct", "b": b, "A": A, "c": c, "d": d, "q": q, "point": point, "correct_params": corr,
+                "gradient_at_point": [float(t) for t in g], "autodiff_hessian": np.array(h0).tolist(), "impl_hessian": h.tolist()}
+        idxs = [fcn.names.index(nm) for nm in corr]
+        f = fcn.coq()
+        for i in idxs:
+            for j in range(nv):
+                if j in idxs and i > j:
+                    continue
+                mdl = ("hc_diag %s %s %s %d" % (f, rlist(point), Rq(1e-3), i)) if i == j else ("hc_off %s %s %s %d %d" % (f, rlist(point), Rq(1e-3), i, j))
+                meta = dict(base, entry=[i, j], impl=float(h[i][j]), exact_second_derivative=float(np.array(h0)[i][j]))
+                cases.append(("hc%d_%d_%d" % (k, i, j), close(mdl, float(h[i][j]), rtol=0.0, atol=1e-8 * max(1.0, abs(float(np.array(h0)[i][j])))), TAC, meta))
+                if abs(h[i][j] - h[j][i]) > 0:
+                    ctx.fail("cal_hesse_correct", "hc%d_%d_%d_sym" % (k, i, j), "corrected Hessian not symmetric", site=SITES["cal_hesse_correct"],
+                             fingerprint="hesse_correct:asymmetric", failing_input=meta)
+        shift = max(abs(float(after[nm]) - x) for nm, x in zip(fcn.names, point))
+        if shift > 0:
+            ctx.fail("cal_hesse_correct", "hc%d_state" % k, "cal_hesse_correct left the parameters away from the fit point (largest shift %g)" % shift,
+                     site=SITES["cal_hesse_correct"], fingerprint="hesse_correct:state",
+                     failing_input=dict(base, params_after={nm: float(after[nm]) for nm in fcn.names}, largest_shift=shift))
+    return cases
+
+
+# --------------------------------------------------------------------------- VarsManager.minimize / minimize_error
+
+def minimize_cases(ctx, rnd, n):
+    """a toy NLL f(y) = 1/2 (y-m)^T A (y-m) + c/12 sum (y_i-m_i)^4 of bounded parameters, minimised through VarsManager.minimize with a callable
+    method (the hook of its signature) that runs scipy BFGS and records what the optimiser returned in the fit variables x:
+      ret.hess_inv = y'(x_fit) V_x y'(x_fit) (trans_error_matrix model with the derivative AT x_fit);
+      minimize_error without a matrix: V = inverse of the Hessian in the physical parameters (H analytic, H V = I), errors sqrt|V_ii|"""
+    import tensorflow as tf
+    from scipy.optimize import minimize as sp_min
+    from tf_pwa.variable import VarsManager
+    cases = []
+    for k in range(n):
+        nv = rnd.choice([2, 3])
+        names = ["q%d" % i for i in range(nv)]
+        vm = VarsManager(dtype=tf.float64)
+        bounds, m, start = {}, [], []
+        for i, nm in enumerate(names):
+            kind = "two" if i == 0 else rnd.choice(["two", "lower", "upper", "none"])   # at least one two-sided bound
+            if kind == "two":
+                a = rnd.uniform(-2, 0.5); w = rnd.uniform(0.6, 3); bounds[nm] = (a, a + w)
+                m.append(a + w * rnd.uniform(0.2, 0.8)); start.append(a + w * rnd.uniform(0.3, 0.7))
+            elif kind == "lower":
+                a = rnd.uniform(-2, 2); bounds[nm] = (a, None)
+                m.append(a + rnd.uniform(0.3, 2)); start.append(a + rnd.uniform(0.3, 2))
+            elif kind == "upper":
+                bb = rnd.uniform(-0.9, 2); bounds[nm] = (None, bb)
+                m.append(bb - rnd.uniform(0.3, 2)); start.append(bb - rnd.uniform(0.3, 2))
+            else:
+                m.append(rnd.uniform(-1, 1)); start.append(rnd.uniform(-1, 1))
+            vm.add_real_var(nm, start[-1])
+            ctx.count("minimize:bound=" + kind)
+        with quiet():
+            vm.set_bound(bounds)
+        M = np.array([[rnd.uniform(-1, 1) for _ in range(nv)] for _ in range(nv)])
+        A = M @ M.T + np.eye(nv)
+        c4 = rnd.uniform(0.5, 2.0)
+        At = tf.constant(A, dtype=tf.float64); mt = tf.constant(m, dtype=tf.float64)
+
+        def fcn():
+            y = tf.stack([vm.variables[nm] for nm in names]) - mt
+            return 0.5 * tf.reduce_sum(y * tf.linalg.matvec(At, y)) + c4 / 12 * tf.reduce_sum(y ** 4)
+
+        raw = {}
+
+        def meth(f2, x0, **kw):
+            r = sp_min(f2, x0, jac=True, method="BFGS")
+            raw["x"] = [float(t) for t in r.x]; raw["V"] = np.array(r.hess_inv, dtype=float)
+            return r
+
+        with quiet():
+            ret = vm.minimize(fcn, method=meth)
+        y_fit = [float(t) for t in ret.x]
+        out = np.array(ret.hess_inv, dtype=float)
+        meta = {"kind": "minimize", "bounds": {kk: list(v) for kk, v in bounds.items()}, "names": names, "minimum": m, "A": A.tolist(), "c4": c4,
+                "x_fit(optimiser)": raw["x"], "V_x(optimiser)": raw["V"].tolist(), "y_fit": y_fit, "impl_hess_inv": out.tolist()}
+        cases += tem_goals("min%d" % k, names, bounds, raw["V"], raw["x"], out, meta)
+        # errors from the matrix minimize() returned
+        err1 = [float(t) for t in vm.minimize_error(fcn, ret)]
+        for i in range(nv):
+            cases.append(("min%d_err%d" % (k, i), close("nth %d (hesse_error %s) 0" % (i, rmat(out)), err1[i], rtol=1e-11), TAC, dict(meta, errors=err1)))
+        # errors from the exact Hessian (no matrix from the optimiser, as after L-BFGS-B)
+        ret.hess_inv = None
+        err2 = [float(t) for t in vm.minimize_error(fcn, ret)]
+        V = np.array(ret.hess_inv, dtype=float)
+        H = A + c4 * np.diag((np.array(y_fit) - np.array(m)) ** 2)
+        meta2 = {"kind": "minimize_error", "bounds": meta["bounds"], "names": names, "y_fit": y_fit, "H(analytic, physical parameters)": H.tolist(),
+                 "impl_hess_inv": V.tolist(), "impl_errors": err2, "expected_errors": np.sqrt(np.diag(np.linalg.inv(H))).tolist()}
+        for i in range(nv):
+            cases.append(("mine%d_inv_row%d" % (k, i), le_stmt("inv_residual_row %s %s %d" % (rmat(H), rmat(V), i), 1e-8), TAC, dict(meta2, row=i)))
+            cases.append(("mine%d_err%d" % (k, i), close("nth %d (hesse_error %s) 0" % (i, rmat(V)), err2[i], rtol=1e-11), TAC, dict(meta2, row=i)))
     return cases
 
 
@@ -307,7 +512,7 @@ def tem_cases(ctx, rnd, n):
 
 # --------------------------------------------------------------------------- a small real fit
 
-def make_config(variant):
+def make_config(variant, pre_trans=None):
     from tf_pwa.config_loader import ConfigLoader
     part = {
         "$top": {"A": {"J": 0, "P": -1, "mass": 1.0}},
@@ -326,6 +531,8 @@ def make_config(variant):
                  "A->R_CD.BR_CD->C.D_total_0r": 0.6, "A->R_CD.BR_CD->C.D_total_0i": -1.1}
     d = {"data": {"dat_order": ["B", "C", "D"]}, "decay": decay, "particle": part,
          "constrains": {"decay": {"fix_chain_idx": 0, "fix_chain_val": 1.0}}}
+    if pre_trans:
+        d["constrains"]["pre_trans"] = {k: dict(v) for k, v in pre_trans.items()}
     with quiet():
         config = ConfigLoader(d)
         config.get_amplitude()
@@ -416,6 +623,23 @@ def fit_cases(ctx, rnd, variant, seed, ndata=400, nphsp=1500):
             for i in range(n):
                 cases.append(("%s_%s_inv_row%d" % (tag, method, i), le_stmt("inv_residual_row %s %s %d" % (rmat(H), rmat(V), i), 1e-6), TAC, dict(meta, row=i)))
                 cases.append(("%s_%s_err%d" % (tag, method, i), close("nth %d (hesse_error %s) 0" % (i, rmat(V)), float(err[names[i]]), rtol=1e-11), TAC, dict(meta, row=i)))
+        # ---- get_params_error(correct_params=[...]) (finite-difference rows, cal_hesse_correct): the parameters must be back at the fit
+        #      point afterwards (everything below - fit fractions, params_trans - is evaluated at the current parameters)
+        before = {k: float(v) for k, v in config.get_params().items()}
+        corr = [names[0], names[-1]]
+        with quiet():
+            config.get_params_error(res, [data], [phsp], method="correct", correct_params=corr)
+        after = {k: float(v) for k, v in config.get_params().items()}
+        shift = max(abs(after[k] - before[k]) for k in before)
+        ctx.count("fit:get_params_error:correct_params=2:state")
+        if shift > 0:
+            ctx.fail("cal_hesse_correct", "%s_correct_state" % tag, "get_params_error(method='correct', correct_params=%r) left the parameters away from the fit point (largest shift %g)" % (corr, shift),
+                     site=SITES["cal_hesse_correct"], fingerprint="hesse_correct:state",
+                     failing_input={"variant": variant, "correct_params": corr, "params_before": before, "params_after": after, "largest_shift": shift})
+            with quiet():
+                config.set_params(before)   # keep the later layers at the fit point
+        with quiet():
+            err_hesse = config.get_params_error(res, [data], [phsp], method="hesse")
         V = np.array(config.inv_he, dtype=float)
         # ---- layer: fit-fraction errors vs sqrt(g^T V g), g = central differences of the fraction itself
         nres = 2 if variant == 0 else 3
@@ -458,19 +682,31 @@ def fit_cases(ctx, rnd, variant, seed, ndata=400, nphsp=1500):
                 else:
                     fe = config.cal_fitfractions(res.params, mcdata=phsp, method=method)
                     frac, ferr = fe
-            for key in frac:
-                hk = key if key in f0 else (key[1], key[0]) if isinstance(key, tuple) else key
-                if hk not in f0:
-                    ctx.notes.append("fraction key %r not reproduced by the harness" % (key,))
-                    continue
-                g = grads[hk]
-                cid = "%s_ff_%s_%s" % (tag, method, "_".join(key) if isinstance(key, tuple) else key)
-                meta = {"kind": "cal_fitfractions", "variant": variant, "method": method, "fraction": str(key), "impl_fraction": float(frac[key]),
-                        "harness_fraction": f0[hk], "impl_error": float(ferr[key]), "harness_gradient": g, "V": V.tolist(),
-                        "harness_error": float(np.sqrt(np.dot(np.dot(V, g), g)))}
-                ctx.count("fit:fraction_error:%s:%s" % (method, "interference" if isinstance(key, tuple) else "diag" if key != "sum_diag" else "sum_diag"))
-                cases.append((cid + "_v", close(Rq(f0[hk]), float(frac[key]), rtol=1e-9, atol=1e-12), "rclose", dict(meta, part="value")))
-                cases.append((cid + "_e", close("err_prop %s %s" % (rmat(V), rlist(g)), float(ferr[key]), rtol=2e-5, atol=1e-9), TAC, dict(meta, part="error")))
+            queries = [(method, V, frac, ferr)]
+            if method == "new":
+                # the SAME FitFractions object is queried again: with another error matrix, then once more with the first one
+                # (get_frac_grad in between); every query must be sqrt(g^T V g) of the matrix of THAT query
+                B = np.array([[rnd.uniform(-1, 1) for _ in range(len(names))] for _ in range(len(names))])
+                V2 = 2.0 * V + 0.05 * float(np.mean(np.diag(V))) * (B @ B.T)
+                with quiet():
+                    f2, e2 = fe.get_frac(error_matrix=V2)
+                    fe.get_frac_grad()
+                    f3, e3 = fe.get_frac(error_matrix=V)
+                queries += [("new_query2", V2, f2, e2), ("new_query3", V, f3, e3)]
+            for method, Vq, frac, ferr in queries:
+              for key in frac:
+                  hk = key if key in f0 else (key[1], key[0]) if isinstance(key, tuple) else key
+                  if hk not in f0:
+                      ctx.notes.append("fraction key %r not reproduced by the harness" % (key,))
+                      continue
+                  g = grads[hk]
+                  cid = "%s_ff_%s_%s" % (tag, method, "_".join(key) if isinstance(key, tuple) else key)
+                  meta = {"kind": "cal_fitfractions", "variant": variant, "method": method, "fraction": str(key), "impl_fraction": float(frac[key]),
+                          "harness_fraction": f0[hk], "impl_error": float(ferr[key]), "harness_gradient": g, "V": Vq.tolist(),
+                          "harness_error": float(np.sqrt(np.dot(np.dot(Vq, g), g)))}
+                  ctx.count("fit:fraction_error:%s:%s" % (method, "interference" if isinstance(key, tuple) else "diag" if key != "sum_diag" else "sum_diag"))
+                  cases.append((cid + "_v", close(Rq(f0[hk]), float(frac[key]), rtol=1e-9, atol=1e-12), "rclose", dict(meta, part="value")))
+                  cases.append((cid + "_e", close("err_prop %s %s" % (rmat(Vq), rlist(g)), float(ferr[key]), rtol=2e-5, atol=1e-9), TAC, dict(meta, part="error")))
         # ---- layer: user expressions under the error-propagation context
         import tensorflow as tf
         exprs = [
@@ -518,6 +754,85 @@ def fit_cases(ctx, rnd, variant, seed, ndata=400, nphsp=1500):
             cases.append(("%s_ptv_%d" % (tag, r), close("nth %d (err_prop_vec %s %s) 0" % (r, rmat(J), rmat(V)), ev[r], rtol=1e-6, atol=1e-12), TAC,
                           {"kind": "params_trans", "variant": variant, "expression": "vector[%d]" % r, "impl_error": ev[r], "harness_gradient": J[r]}))
         ctx.count("fit:params_trans:vector")
+
+        def fd_grad(pyf, th_):
+            row = []
+            for k in names:
+                if k in use:
+                    i = use.index(k)
+                    tp = list(th_); tp[i] += 1e-6
+                    tm = list(th_); tm[i] -= 1e-6
+                    row.append((pyf(*tp) - pyf(*tm)) / 2e-6)
+                else:
+                    row.append(0.0)
+            return row
+
+        # covariance of several derived quantities, ParamsTrans.get_error_matrix: a vector tensor (3 expressions, 3 != number of
+        # variables) and the same expressions as a list; every entry against (J V J^T)_kl
+        J3 = [fd_grad(pyf, th) for (_, pyf, _) in exprs]
+        for form in ("tensor", "list"):
+            with quiet():
+                with config.params_trans() as pt:
+                    yl = [tff(*[pt[k] for k in use]) for (_, _, tff) in exprs]
+                    arg = tf.stack(yl) if form == "tensor" else yl
+                C = np.array(pt.get_error_matrix(arg), dtype=float)
+            scale = float(np.max(np.abs(C))) or 1.0
+            meta = {"kind": "params_trans", "variant": variant, "expression": "get_error_matrix(%s of %d expressions)" % (form, len(exprs)),
+                    "variables": use, "values": th, "impl_matrix": C.tolist(), "harness_jacobian": J3}
+            if C.shape != (3, 3):
+                ctx.fail("params_trans", "%s_ptm_%s_shape" % (tag, form), "get_error_matrix returned shape %r" % (C.shape,), site=SITES["params_trans"],
+                         fingerprint="params_trans:error_matrix", failing_input=meta)
+                continue
+            for a in range(3):
+                for b in range(3):
+                    cases.append(("%s_ptm_%s_%d_%d" % (tag, form, a, b), close("jvjt_kl %s %s %d %d" % (rmat(J3), rmat(V), a, b), float(C[a][b]), rtol=0.0, atol=2e-6 * scale),
+                                  TAC, dict(meta, entry=[a, b])))
+            ctx.count("fit:params_trans:error_matrix:" + form)
+        # a masked parameter (pt.mask_params) is a constant inside the expression: value at the masked number, no contribution to the error
+        mk = use[1] if len(use) > 1 else use[0]
+        mval = round((th[use.index(mk)] * 1.25 + 0.1) * 64) / 64   # dyadic: exact on any float route into the mask
+        thm = list(th); thm[use.index(mk)] = mval
+        for (ename, pyf, tff) in exprs[:2]:
+            with quiet():
+                with config.params_trans() as pt:
+                    with pt.mask_params({mk: mval}):
+                        y = tff(*[pt[k] for k in use])
+                yv = float(y); e = float(pt.get_error(y))
+            g = fd_grad(pyf, thm); g[names.index(mk)] = 0.0
+            meta = {"kind": "params_trans", "variant": variant, "expression": ename + " with %s masked" % mk, "variables": use, "values": th, "masked": {mk: mval},
+                    "impl_value": yv, "expected_value": pyf(*thm), "impl_error": e, "harness_gradient": g}
+            ctx.count("fit:params_trans:masked")
+            cid = "%s_ptmask_%d" % (tag, exprs.index((ename, pyf, tff)))
+            cases.append((cid + "_v", close(Rq(pyf(*thm)), yv, rtol=1e-12, atol=1e-300), "rclose", dict(meta, part="value")))
+            cases.append((cid + "_e", close("err_prop %s %s" % (rmat(V), rlist(g)), e, rtol=1e-6, atol=1e-12), TAC, dict(meta, part="error")))
+        # ---- a pre_trans constraint (reported parameter = k * variable + b): same likelihood, same reported value, so the reported
+        #      uncertainty must be the same as without the constraint.  Stated rule: the regular stream has no pre_trans configurations;
+        #      ONE such configuration per run (first variant-1 fit), its get_params_error part is the open finding pre_trans:error_of_raw_variable
+        if variant == 1 and not ctx.pretrans_done:
+            ctx.pretrans_done = True
+            key = "R_BC_mass"; kk, bb = 2.0, 0.1
+            ref_err = float(err_hesse[key])
+            config2, _ = make_config(variant, pre_trans={key: {"model": "linear", "k": kk, "b": bb}})
+            with quiet():
+                config2.set_params(dict(res.params))
+                val2 = float(config2.get_params()[key])
+                err2 = config2.get_params_error(dict(res.params), [data], [phsp], method="hesse")
+                with config2.params_trans() as pt2:
+                    y2 = pt2[key] * 1.0
+                pv, pe = float(y2), float(pt2.get_error(y2))
+            metap = {"kind": "params_trans", "variant": variant, "expression": "pt[%r] with pre_trans linear k=%g b=%g" % (key, kk, bb),
+                     "reported_value": theta[key], "reported_value_with_pre_trans": val2, "error_without_pre_trans": ref_err,
+                     "impl_value": pv, "impl_error": pe, "get_params_error_with_pre_trans": float(err2[key])}
+            ctx.count("fit:pre_trans:params_trans")
+            cases.append(("%s_pretrans_pt_v" % tag, close(Rq(theta[key]), pv, rtol=1e-9), "rclose", dict(metap, part="value")))
+            cases.append(("%s_pretrans_pt_e" % tag, close("nth %d (hesse_error %s) 0" % (names.index(key), rmat(V)), pe, rtol=1e-6), TAC, dict(metap, part="error")))
+            ctx.count("fit:pre_trans:get_params_error(open finding)")
+            if abs(val2 - theta[key]) > 1e-9 * abs(theta[key]) or abs(float(err2[key]) - ref_err) > 1e-6 * ref_err:
+                ctx.fail("get_params_error", "%s_pretrans_err" % tag,
+                         "with pre_trans {%s: linear k=%g b=%g} the reported value is %r (without: %r) but the reported error is %r (without: %r, ratio %g)"
+                         % (key, kk, bb, val2, theta[key], float(err2[key]), ref_err, float(err2[key]) / ref_err),
+                         site="tf_pwa/config_loader/config_loader.py ConfigLoader.get_params_error with a pre_trans constraint",
+                         fingerprint="pre_trans:error_of_raw_variable", failing_input=metap)
     finally:
         mm.FCN.nll_grad_hessian = orig_h
         VarsManager.trans_error_matrix = orig_t
@@ -560,8 +875,28 @@ SITES = {
     "fit.trans_error_matrix": "tf_pwa/variable.py VarsManager.trans_error_matrix",
     "get_params_error": "tf_pwa/config_loader/config_loader.py get_params_error / tf_pwa/applications.py cal_hesse_error",
     "cal_fitfractions": "tf_pwa/fitfractions.py cal_fitfractions / FitFractions.get_frac_grad",
-    "params_trans": "tf_pwa/params_trans.py ParamsTrans.get_error",
+    "params_trans": "tf_pwa/params_trans.py ParamsTrans.get_error / get_error_matrix / __getitem__",
+    "cal_hesse_correct": "tf_pwa/applications.py cal_hesse_correct",
+    "minimize": "tf_pwa/variable.py VarsManager.minimize",
+    "minimize_error": "tf_pwa/variable.py VarsManager.minimize_error",
 }
+
+
+def FP_SUFFIX(meta):
+    """sub-fingerprint of the scenario families added after the first build (the original families keep the bare kind)"""
+    e = str(meta.get("expression", ""))
+    if meta.get("kind") == "params_trans":
+        if e.startswith("get_error_matrix"):
+            return ":error_matrix"
+        if "masked" in e:
+            return ":mask_params"
+        if "pre_trans" in e:
+            return ":pre_trans"
+    if meta.get("kind") == "cal_err" and meta.get("operands") == "numpy arrays":
+        return ":array_operands"
+    if meta.get("kind") == "cal_fitfractions" and str(meta.get("method", "")).startswith("new_query"):
+        return ":repeated_query"
+    return ""
 
 
 def run(ctx):
@@ -569,7 +904,12 @@ def run(ctx):
     ctx.rule = ("seeded random operands |x| in [0.2,5] of both signs (base > 0 for real powers, any sign for integer powers), errors in [0.01,0.5], "
                 "plain numbers on the right and on the left (__rpow__); random SPD matrices and bound sets for trans_error_matrix; 400-event toy fits "
                 "(2 and 3 spin-0 resonances, 4-5 free parameters incl. bounded mass/width); distinct = distinct (layer, inputs); "
-                "non-trivial = both operands/matrices non-degenerate (no zero error, no identity transform only)")
+                "non-trivial = both operands/matrices non-degenerate (no zero error, no identity transform only); cal_err also on numpy-array operands "
+                "(two calls per operand set); cubic 3-parameter toy likelihoods at points with |v_i| <= 0.3 (gradient not zero) for cal_hesse_correct with 1-3 "
+                "corrected parameters; bounded 2-3 parameter toy minimisations (first parameter two-sided) for VarsManager.minimize/minimize_error; "
+                "per fit: get_params_error(correct_params) state, three queries of one FitFractions object, get_error_matrix of 3 expressions, mask_params; "
+                "pre_trans configurations are NOT in the regular stream: exactly one (first variant-1 fit, R_BC_mass -> 2 x + 0.1) per run, whose "
+                "get_params_error part is the open finding pre_trans:error_of_raw_variable")
     common.theorem_stage(ctx)
     quick = ctx.tier == "quick"
     os.chdir(ctx.dir)   # cal_hesse_error writes error_matrix.npy into the working directory
@@ -577,7 +917,10 @@ def run(ctx):
     ctx.log("operator cases", len(cases))
     cases += calerr_cases(ctx, rnd, 6 if quick else 60)
     cases += tem_cases(ctx, rnd, 3 if quick else 30)
-    ctx.log("+cal_err, trans_error_matrix cases", len(cases))
+    cases += hesse_correct_cases(ctx, rnd, 3 if quick else 30)
+    cases += minimize_cases(ctx, rnd, 3 if quick else 20)
+    ctx.log("+cal_err, trans_error_matrix, cal_hesse_correct, minimize cases", len(cases))
+    ctx.pretrans_done = False
     for variant, seed in ([(0, 11), (1, 23)] if quick else [(0, 11), (1, 23), (0, 37), (1, 41), (0, 59), (1, 67)]):
         try:
             cases += fit_cases(ctx, rnd, variant, seed + 100 * ctx.seed)
@@ -606,7 +949,12 @@ def run(ctx):
             fi = {k: v for k, v in meta.items()}
             fi["coq_result"] = res[cid]
             ctx.fail(kind, cid, "%s: implementation value not within tolerance of the model (%s)" % (kind, res[cid]), inp=None,
-                     site=SITES.get(kind, kind), fingerprint=str(kind), failing_input=fi)
+                     site=SITES.get(kind, kind), fingerprint=str(kind) + FP_SUFFIX(meta), failing_input=fi)
+    if ctx.failures:
+        import collections
+        summ = collections.Counter("%s | %s" % (f.get("site"), f.get("fingerprint")) for f in ctx.failures)
+        for key, cnt in sorted(summ.items()):
+            ctx.log("failures: %d x %s" % (cnt, key), len(cases))
     return common.finish(ctx, search=search, technique=TECHNIQUE, extra_assumptions=[
         "real-number model; float rounding absorbed by rtol 1e-12 (operators), 1e-9 (central differences inside cal_err/apply), 1e-11 (matrices)",
         "fit-fraction gradients are central differences (h=1e-5) of the fraction computed by the harness from amp.partial_weight: rtol 2e-5 on the error",
